@@ -64,7 +64,15 @@ def part_a(tier, idx, res, viol):
         res["states"] += 1
         # chain law along the BFS-tree path
         chain_check(alpha, views, path, res, viol)
-        for ai in range(len(alpha)):
+        histories = [path]
+        alt = getattr(order, "alt", {}).get(si)
+        if alt is not None and any(alpha[pi][0] == "delProperty" for pi in alt):
+            # the same state entered through deletions and re-definitions: callbacks registered before that history
+            # are still registered after it
+            histories.append(alt)
+            chain_check(alpha, views, alt, res, viol)
+            res["counters"]["second_histories"] = res["counters"].get("second_histories", 0) + 1
+        for path, ai in [(h, ai) for h in histories for ai in range(len(alpha))]:
             rc = new_client()
             logs = [[] for _ in FILTERS]
             for k, f in enumerate(FILTERS):
